@@ -468,6 +468,41 @@ func cmdCheck(args []string) int {
 		}
 		fmt.Printf("VIOLATION property=%s replay=%s obligation=%s%s\n", *prop, rp, o.Name, suffix)
 	}
+	// thorough tier: the witnesses of the defects this property's checks found are run again on the real code —
+	// a repaired defect's witness must pass (if it fails while its obligation discharges, the violation is back and
+	// the contract no longer sees it), a recorded finding's witness is expected to fail still.
+	replayRegression = nil
+	if *tier == "thorough" {
+		status := map[string]string{}
+		for _, o := range obs {
+			status[o.Name] = o.Status
+		}
+		done := map[string]bool{}
+		for _, k := range knownAll {
+			if k.Property != *prop || done[k.Obligation] {
+				continue
+			}
+			done[k.Obligation] = true
+			fo := &Obligation{Name: k.Obligation}
+			failedOnCode, detail := tryReplay(eng, outDir, *prop, fo)
+			if strings.HasPrefix(detail, "no replay") || strings.HasPrefix(detail, "bad replay") {
+				continue
+			}
+			rec := map[string]interface{}{"obligation": k.Obligation, "entry": k.Kind, "witness_fails_on_this_tree": failedOnCode, "obligation_status": status[k.Obligation]}
+			replayRegression = append(replayRegression, rec)
+			if k.Kind == "fixed" && failedOnCode && status[k.Obligation] == "discharged" {
+				violations++
+				fo.Kind, fo.Clause, fo.Status = "replay-regression", "the witness of a repaired defect fails again on this tree although the obligation that found it discharges", "failed"
+				fo.Failed = []*VC{{Ob: k.Obligation, Kind: "replay-regression", Verdict: "witness-fails", Raw: detail}}
+				fo.VCs = fo.Failed
+				rp := writeReplay(eng, outDir, *prop, fo)
+				fmt.Printf("VIOLATION property=%s replay=%s obligation=%s (witness of a repaired defect fails again)\n", *prop, rp, k.Obligation)
+			}
+			if k.Kind == "finding" && !failedOnCode {
+				fmt.Printf("NOTE property=%s the witness of known finding %s no longer fails on this tree\n", *prop, k.Obligation)
+			}
+		}
+	}
 	writeEvidence(vd, *prop, *tier, seed, cfg, results, obs, time.Since(t0).Seconds(), "", knownHit)
 	nd := 0
 	for _, o := range obs {
@@ -510,3 +545,6 @@ func containsStr(xs []string, x string) bool {
 	}
 	return false
 }
+
+// replayRegression: per known-findings entry of the property, what its witness did on the real code (thorough tier).
+var replayRegression []map[string]interface{}
